@@ -2792,7 +2792,7 @@ class Entity(MutableMapping[str, str]):
         buffer.write(ind + '{\n')
         buffer.write(f'{ind}\t"id" "{self.id}"\n')
         for key, value in sorted(self._keys.items(), key=operator.itemgetter(0)):
-            buffer.write(f'{ind}\t"{key}" "{escape_text(value)}"\n')
+            buffer.write(f'{ind}\t"{escape_text(key)}" "{escape_text(value)}"\n')
 
         if self._fixup is not None:
             self._fixup.export(buffer, ind)
